@@ -49,6 +49,21 @@ def tree_problems(tree):
     return probs, depth_max
 
 
+def imbalance_origin(tree):
+    """Type of the deepest node whose leaves do not balance although each of its child nodes does: the node whose
+    own grammar emitted an Indent without a Dedent (or vice versa)."""
+    node = tree
+    while True:
+        nxt = None
+        for c in node.segments:
+            if c.segments and sum(getattr(r, "indent_val", 0) for r in c.raw_segments if r.is_meta) != 0:
+                nxt = c
+                break
+        if nxt is None:
+            return node.get_type()
+        node = nxt
+
+
 def indent_balance(raws):
     bal = 0
     mn = 0
@@ -119,8 +134,9 @@ class C03(Check):
                 out.fail(f"indent balance dips to {mn}", clause="indent-negative", dialect=dialect, variant=var,
                          unparsable=has_unp)
             if bal != 0:
-                out.fail(f"indent balance ends at {bal}", clause="indent-final", dialect=dialect, variant=var,
-                         unparsable=has_unp)
+                where = imbalance_origin(tree)
+                out.fail(f"indent balance ends at {bal} (unbalanced metas directly under {where})", clause="indent-final",
+                         dialect=dialect, variant=var, unparsable=has_unp, **({} if has_unp else {"origin": where}))
             n_ind = sum(1 for s in raws if s.is_meta and getattr(s, "indent_val", 0) != 0)
             if depth >= 3 and n_ind >= 2:
                 out.nontrivial = True
